@@ -182,6 +182,19 @@ def env_noise(s, allow_faults=True, pfault=0.12):
         elif m < 0.6: s.add(op="wdeliver", nb=r.choice([1, 2, 5, 9])); s.add(op="wend", ec=r.choice(["reset", "timed_out"]))
         else: s.add(op="wdeliver"); s.add(op="wend", ec=r.choice(["ok", "reset"]))
         s.add(op="set", auto_write=1)
+    elif k < 0.86 and not s.held:
+        # several requests in ONE write whose acknowledgements are all read before the write's completion handler
+        # runs ("fast replies"): every one of them must still find its acknowledgement
+        s.add(op="set", auto_write=0)
+        s.pub(r.choice([0, 1]))                                   # its write is in progress: the next ones queue up
+        for _ in range(r.choice([2, 2, 3])):
+            if r.random() < 0.75: s.pub(r.choice([2, 2, 1]))
+            else: s.sub()
+        s.add(op="wend", ec="ok")                                 # first write done: the queued requests go out as one batch
+        s.add(op="wdeliver")                                      # the broker has them and answers at once
+        s.add(op="wend", ec="ok")
+        s.add(op="set", auto_write=1)
+        if r.random() < 0.5: fault_step(s)
     elif k < 0.88:
         s.add(op="set", chunk=r.choice([1, 2, 3, 7, 0]))
     elif k < 0.92:
@@ -347,6 +360,26 @@ def gen_lifecycle(rng, idx):
         s2.add(op="unhold")
         s2.add(op="advance", ms=r.choice([1, 30000])); s2.add(op="drain")
         return s2.out()
+    if r.random() < 0.08:
+        # the SAME service object is ended by a terminal per-operation cancellation while identifier-holding requests are
+        # outstanding, then run again with several exchanges outstanding at once (identifiers, quota, queues start afresh?)
+        s3 = Sc(rng, "life-%d" % idx)
+        s3.cfg(hosts=r.choice([1, 2]), ka=0, tseed=r.randrange(1, 1 << 30))
+        s3.add(op="connack", sticky=1, props=caps_props(r, r.choice([None, None, 2, 3])))
+        s3.run(); s3.recv()
+        s3.add(op="hold")
+        first = [s3.pub(r.choice([1, 2])) if r.random() < 0.8 else s3.sub() for _ in range(r.choice([1, 2, 3]))]
+        s3.add(op="advance", ms=r.choice([0, 1]))
+        s3.add(op="cancel_op", id=r.choice(first), type="terminal", now=r.choice([0, 1]))
+        s3.add(op="drain")
+        s3.run()
+        for _ in range(r.choice([2, 3, 4])): s3.pub(r.choice([1, 1, 2])) if r.random() < 0.8 else s3.sub()
+        s3.add(op="advance", ms=1)
+        if r.random() < 0.4: fault_step(s3)
+        s3.add(op="unhold")
+        s3.quiesce()
+        s3.add(op="cancel_all"); s3.add(op="drain")
+        return s3.out()
     if r.random() < 0.12 and pre < 0.9:
         # async_disconnect while the connection is being re-established and a QoS 2 exchange sits in its PUBREL phase
         s.quiesce(ms=30000)
